@@ -2,6 +2,7 @@
 #include "vh.h"
 using namespace cnl;
 using namespace vh;
+static const bool vh_strict_on = (vh::strict = true);
 
 template<class Z>
 void print_el(Z const& z)
